@@ -18,7 +18,7 @@ ASSUMPTIONS = ["fault -> code table follows hed/errors/schema_error_messages.py 
                "SCHEMA_ATTRIBUTE_INVALID, SCHEMA_ATTRIBUTE_VALUE_INVALID, SCHEMA_DEPRECATION_ERROR)",
                "hedId faults are seeded on a copy of 8.3.0 whose version is bumped to 8.4.0 so that 8.3.0 is the previous "
                "release found in the hermetic cache", "SCHEMA_PRERELEASE_VERSION_USED is ignored"]
-MIN_MONITOR_EVALS = {"released-schema-no-error": 9, "seeded-fault-has-code": 120, "warnings-off-only-errors": 120, "group-compliance-equals-members": 8}
+MIN_MONITOR_EVALS = {"released-schema-no-error": 9, "seeded-fault-has-code": 120, "warnings-off-only-errors": 120, "group-compliance-equals-members": 8, "legal-edit-not-reported": 15}
 WATCHDOG_S = {"quick": 1500, "thorough": 7200}
 CODES = {"duplicate-node": "SCHEMA_DUPLICATE_NODE", "library-node-named-as-standard": "SCHEMA_LIBRARY_INVALID", "attribute-from-other-section": "SCHEMA_ATTRIBUTE_INVALID",
          "unknown-attribute": "SCHEMA_ATTRIBUTE_INVALID", "missing-unit-class": "SCHEMA_ATTRIBUTE_VALUE_INVALID",
@@ -29,6 +29,8 @@ CODES = {"duplicate-node": "SCHEMA_DUPLICATE_NODE", "library-node-named-as-stand
          "default-units-not-in-class": "SCHEMA_ATTRIBUTE_VALUE_INVALID", "unknown-allowed-character": "SCHEMA_ATTRIBUTE_VALUE_INVALID",
          "foreign-in-library": "SCHEMA_ATTRIBUTE_VALUE_INVALID", "hed-id-out-of-range": "SCHEMA_ATTRIBUTE_VALUE_INVALID",
          "hed-id-changed": "SCHEMA_ATTRIBUTE_VALUE_INVALID", "hed-id-malformed": "SCHEMA_ATTRIBUTE_VALUE_INVALID"}
+# edits that are legal: the named code must NOT appear (the counterpart of a fault kind)
+CONTROLS = {"deprecated-from-valid": "SCHEMA_DEPRECATION_ERROR"}
 SEED_SCHEMAS = {"quick": ["8.3.0", "8.2.0", "score_2.0.0"],
                 "thorough": ["8.3.0", "8.2.0", "8.1.0", "8.0.0", "score_2.0.0", "score_1.1.0", "testlib_3.0.0", "testlib_2.0.0"]}
 
@@ -71,7 +73,7 @@ def shards(tier, seed):
     for versions in GROUPS:
         out.append(dict(kind="group", versions=versions))
     for v in SEED_SCHEMAS[tier]:
-        for fault in CODES:
+        for fault in list(CODES) + list(CONTROLS):
             npos = 10 if tier == "quick" else (400 if v == "8.3.0" else 200)
             per = 5 if tier == "quick" else 25
             off = (seed * 10) if tier == "quick" else 0
@@ -230,6 +232,30 @@ def seed_fault(version, fault, pos, exhaustive=False):
         else:
             _attr(n, "valueClass", [vclasses[pos % len(vclasses)].findtext("name")])
         desc = f"{which} on {n.findtext('name')}"
+    elif fault == "deprecated-from-valid":
+        # a leaf deprecated from an earlier release of the schema (or library) that owns it: nothing to report
+        if "deprecatedFrom" not in attr_defs:
+            return None
+        std_part = bool(lib) and pos % 3 == 2
+        pool = nodes
+        if lib:
+            pool = [x for x in nodes if (_get_attr(x, "inLibrary") is None) == std_part]
+        # (a node that a live node names as related or suggested tag may not be deprecated: those are left alone)
+        named = {v.text for v in root.iter("value")}
+        leaves = [x for x in pool if not x.findall("node") and _get_attr(x, "deprecatedFrom") is None
+                  and x.findtext("name") not in named]
+        n = pick(leaves)
+        if n is None:
+            return None
+        own = (root.get("withStandard") or sver) if (std_part or not lib) else sver
+        family = [b for b in env.BUNDLED if ("_" not in b) == (std_part or not lib) and (std_part or not lib or b.startswith(lib + "_"))]
+        as_tuple = lambda v: tuple(int(x) for x in v.split("_")[-1].split("."))      # noqa
+        older = [b.split("_")[-1] for b in family if as_tuple(b) < as_tuple(own)]
+        if not older:
+            return None
+        val = older[pos % len(older)]
+        _attr(n, "deprecatedFrom", [val])
+        desc = f"{n.findtext('name')} deprecatedFrom {val}" + (" (standard part)" if std_part else "")
     elif fault in ("deprecated-from-unknown", "deprecated-from-not-older"):
         if "deprecatedFrom" not in attr_defs:
             return None
@@ -357,9 +383,15 @@ def check_seeded(case, rec):
         rec.violation(f"loading / compliance checking the seeded schema raised {type(ex).__name__}",
                       dict(case, message=str(ex)[:200]), key=key)
         return True
+    codes = {i["code"] for i in with_w}
+    if case["fault"] in CONTROLS:
+        rec.mon("legal-edit-not-reported")
+        rec.count("control", case["fault"])
+        if CONTROLS[case["fault"]] in codes:
+            rec.violation(f"legal edit ({case['fault']}) reported as {CONTROLS[case['fault']]}", case)
+        return True
     rec.mon("seeded-fault-has-code")
     rec.count("fault", case["fault"])
-    codes = {i["code"] for i in with_w}
     if CODES[case["fault"]] not in codes:
         rec.violation(f"seeded fault ({case['fault']}) not reported as {CODES[case['fault']]}",
                       dict(case, observed=sorted(codes - {"SCHEMA_PRERELEASE_VERSION_USED"})))
